@@ -130,6 +130,8 @@ class RuntimeModel:
             with warnings.catch_warnings():
                 warnings.simplefilter('ignore')
                 tree = ast.parse(inst)
+                from .normalize import canonicalize_module
+                tree = canonicalize_module(tree)
         except SyntaxError as e:
             self.template_syntax_error = e
             raise AnalysisError('R', f'instantiated class template does not parse: {e}')
